@@ -106,6 +106,51 @@ pub struct SLife<'a> {
     pub o: Option<&'a str>,
 }
 
+/// attribute "noise" next to the Schema derive: representation hints, lints and docs are not serde attributes and
+/// must not change the schema
+#[derive(Serialize, Deserialize, Debug, Clone, PartialEq, Schema)]
+#[repr(transparent)]
+pub struct SReprT(pub u32);
+impl HasShape for SReprT {
+    fn shape() -> Shape {
+        Shape::NewtypeStruct("SReprT", Box::new(Shape::U32))
+    }
+}
+/// A handle.
+#[derive(Serialize, Deserialize, Debug, Clone, PartialEq, Schema)]
+#[repr(transparent)]
+#[must_use]
+pub struct SReprField {
+    /// the raw value
+    pub raw: u64,
+}
+impl HasShape for SReprField {
+    fn shape() -> Shape {
+        Shape::Struct("SReprField", vec![("raw", Shape::U64)])
+    }
+}
+#[derive(Serialize, Deserialize, Debug, Clone, PartialEq, Schema)]
+#[repr(u8)]
+#[non_exhaustive]
+pub enum SReprE {
+    A = 7,
+    B(u16) = 3,
+    #[allow(dead_code)]
+    C { x: u8 } = 200,
+}
+impl HasShape for SReprE {
+    fn shape() -> Shape {
+        Shape::Enum(
+            "SReprE",
+            vec![
+                VariantShape { name: "A", data: VData::Unit },
+                VariantShape { name: "B", data: VData::Newtype(Box::new(Shape::U16)) },
+                VariantShape { name: "C", data: VData::Struct(vec![("x", Shape::U8)]) },
+            ],
+        )
+    }
+}
+
 /// Types that have Serialize + Deserialize + HasShape + Schema.
 #[macro_export]
 macro_rules! for_each_shaped_schema_type {
@@ -126,6 +171,7 @@ macro_rules! for_each_shaped_schema_type {
         $m!($crate::corpus::SStd); $m!($crate::corpus::SHeap7); $m!($crate::corpus::SOpts); $m!($crate::corpus::SArrays);
         $m!($crate::corpus::SGen<u16>); $m!($crate::corpus::SGen<$crate::corpus::SData>); $m!($crate::corpus::SLevel); $m!($crate::corpus::SRaw);
         $m!(Vec<$crate::corpus::SLevel>); $m!(Vec<$crate::corpus::SUnit>); $m!(Vec<[u8; 0]>);
+        $m!($crate::corpus::SReprT); $m!($crate::corpus::SReprField); $m!($crate::corpus::SReprE);
     };
 }
 
